@@ -90,8 +90,10 @@ HRun == /\ pc = "h_run"
         /\ UNCHANGED <<sc, wreq, neg, wresp, csaw>>
 
 Failing(s) == s.out.kind # "ok"
+\* "ctxwrap": a coded error whose cause wraps a context error keeps its own code (error.go wrapIfContextError)
 ErrOf(s) == IF s.out.kind = "plain" THEN [code |-> 2, msg |-> s.out.msg, ndet |-> 0, meta |-> <<>>]
-            ELSE [code |-> s.out.code, msg |-> s.out.msg, ndet |-> s.out.ndet, meta |-> s.out.meta]
+            ELSE [code |-> s.out.code, msg |-> IF s.out.kind = "ctxwrap" THEN "ctx:" \o s.out.msg ELSE s.out.msg,
+                  ndet |-> s.out.ndet, meta |-> s.out.meta]
 NSent(s) == IF ~Failing(s) THEN Len(s.resp)
             ELSE IF Streamy(s) THEN Min2(s.out.after, Len(s.resp)) ELSE 0
 \* header and trailer metadata the handler program manages to attach
@@ -160,7 +162,7 @@ ExactDelivery == Done /\ neg.ok =>
 ErrorNeverSuccess == Done /\ neg.ok /\ Failing(sc) =>
   /\ ~csaw.ok
   /\ csaw.code = ErrOf(sc).code /\ csaw.code \in 1..16
-  /\ csaw.msg = sc.out.msg /\ csaw.ndet = ErrOf(sc).ndet
+  /\ csaw.msg = ErrOf(sc).msg /\ csaw.ndet = ErrOf(sc).ndet
   /\ (IsUnaryConnect(sc) => wresp.status \notin 200..299)
   /\ \A i \in 1..Len(ErrOf(sc).meta) : \E j \in 1..Len(csaw.meta) : csaw.meta[j] = ErrOf(sc).meta[i]
 
